@@ -11,6 +11,26 @@ for d in sorted(glob.glob("/verif/seeded/*")):
                 cell(m.get("needs", ""), 150), c.get("detected", "?"), cell(c.get("check_result", ""), 200)))
 tab = ("| id | change (independent sub-agent, passes the pinned suite) | needs, to manifest | detected | how reported |\n"
        "|----|----|----|----|----|\n" + "\n".join(rows))
+# summary by round: round = tag of the directory name (m = 1, r2m = 2, ...)
+import collections
+byround = collections.OrderedDict()
+for d in sorted(glob.glob("/verif/seeded/*")):
+    name = os.path.basename(d)
+    mm = re.match(r"C\d\d-(?:r(\d)[ab]?)?m\d", name)
+    rnd = int(mm.group(1)) if (mm and mm.group(1)) else 1
+    det = str(json.load(open(os.path.join(d, "meta.json"))).get("confirmed_by_coordinator", {}).get("detected", "?"))
+    first = det.startswith("yes") and "after" not in det
+    t = byround.setdefault(rnd, [0, 0])
+    t[0] += 1
+    t[1] += 1 if first else 0
+tot = sum(t[0] for t in byround.values())
+hit = sum(t[1] for t in byround.values())
+summ = ("**Summary (generated).** %d seeded changes kept; %d (%d %%) were reported by the checks as they stood when the "
+        "change arrived, the other %d only after an input family was added (the row says which, and the result line of the "
+        "re-run; `tools/regress_seeded.sh Cxx` re-tests every kept change of a property against the current check). By round: "
+        % (tot, hit, round(100.0 * hit / tot), tot - hit)
+        + "; ".join("round %d: %d of %d at first" % (r, t[1], t[0]) for r, t in sorted(byround.items())) + ".")
+tab = summ + "\n\n" + tab
 p = "/verif/DESIGN.md"
 s = open(p).read()
 b, e = "<!-- SEEDED-TABLE-BEGIN -->", "<!-- SEEDED-TABLE-END -->"
